@@ -101,7 +101,7 @@ theorem placed_first' {hdr sbl rest out sb : Text} (ex : Bool) (hout : out = pla
     `rstrip sbl ++ "\n\n"`.  `sbl` is everything above the old block when the block is not at the top, and the
     leading marker lines of the old block when it is. -/
 theorem first_line_old {c : HdrCfg} {t b0 h0 a0 sb : Text}
-    (hno : NoExoticBreaks t) (hf0 : findFirstSpdxComment c t = some (b0, h0, a0))
+    (hno : b0 = [] → NoExoticBreaks t) (hf0 : findFirstSpdxComment c t = some (b0, h0, a0))
     (hmk : ∀ x ∈ c.style.shebangs, x ≠ [] ∧ NoBreak x ∧ ¬ Blank x)
     (hf : c.style.shebangs.find? (startsWith t ·) = some sb) (hdr : Text) :
     ∃ sbl rest, t = sbl ++ rest ∧ sb <+: sbl ∧
@@ -130,6 +130,7 @@ theorem first_line_old {c : HdrCfg} {t b0 h0 a0 sb : Text}
   · -- the block is at the top
     simp only [List.nil_append] at hbr
     subst hbr
+    have hno := hno rfl
     have hcases : r = comment ∨ ∃ rest, r = comment ++ '\n' :: rest := by
       cases hes : c.style.isEmptyStyle with
       | true => left; exact (commentAt_empty hes hc).symm
